@@ -1,1 +1,2 @@
 import Bridge.Abs
+import Bridge.Quotient
